@@ -214,7 +214,13 @@ pub fn run(tier: &str, seed: u64) -> Sink {
             }
         }
         let nested = r.chance(1, 4);
-        let prog = build(&stmts, one_line);
+        let mut prog = build(&stmts, one_line);
+        // what follows the last statement (the EOF token's leading trivia): usually nothing, sometimes blank
+        // lines / indentation, which a range that ends earlier must leave alone. Drawn from a forked
+        // generator so that the programs themselves are the same as without this clause.
+        let mut rt = Rng::new(seed.wrapping_mul(7919) ^ (i as u64) ^ 0xE0F);
+        let trailer = if !nested && rt.chance(1, 3) { *rt.pick(&["\n", "\n\n", "  \n", "\t\n\n  ", "\n\n\n"]) } else { "" };
+        prog.text.push_str(trailer);
         let (text, off) = if nested {
             (format!("do\n{}end\n", prog.text), 3usize)
         } else {
@@ -352,6 +358,10 @@ pub fn run(tier: &str, seed: u64) -> Sink {
                             if !out.ends_with(suffix) {
                                 sink.v("C09", "suffix-bytes-changed", json!({"input": text, "config": cfg_to_string(&c), "range": [rs, re], "output": out}));
                             }
+                        }
+                        // the range ends with (or before) the last statement: what follows it is outside
+                        if !trailer.is_empty() && re.map(|x| x <= prog.spans[m - 1].2 + off).unwrap_or(false) && !out.ends_with(trailer) {
+                            sink.v("C09", "eof-bytes-changed", json!({"input": text, "config": cfg_to_string(&c), "range": [rs, re], "output": out}));
                         }
                     } else if out != text {
                         // nothing inside the range: nothing may change
